@@ -481,7 +481,10 @@ func (m *model) onTerminate(tc *terminateCall) {
 
 func workerKeyOf(wk *workerSim) string {
 	// encoding/json sorts map keys.
-	return fmt.Sprintf(`{"host":%q,"pool":%q}`, wk.id["host"], wk.id["pool"])
+	if len(wk.id) == 2 {
+		return fmt.Sprintf(`{"host":%q,"pool":%q}`, wk.id["host"], wk.id["pool"])
+	}
+	return fmt.Sprintf(`{"host":%q,"pool":%q,"slot":%q}`, wk.id["host"], wk.id["pool"], wk.id["slot"])
 }
 
 func (m *model) queueNameOf(wk *workerSim) string {
